@@ -75,11 +75,14 @@ PROPS["C02"] = dict(
           "(alive about it at incarnation 1/2/7/2^20 with other metadata) arrives while Create is still running (inside the delegate's NodeMeta call, the listeners are already up). After each step: the node "
           "lists itself, its own record (state dump) is alive, LocalNode agrees, own incarnation never decreases; for an effective accusation the own "
           "incarnation is strictly above it and an alive message with exactly that incarnation and the current metadata leaves the node within 6 gossip "
-          "intervals. non-trivial = effective accusation; distinct = (accusation, incarnation mode, carrier, meta/vsn variation, accuser, protocol version)"),
+          "intervals. Restart under fire (real loopback sockets, real scheduler): 1-3 senders flood a port with alive claims about the node (own address, other metadata, ever rising "
+          "incarnations) while the node is created on that port 20-60 times per case; after every Create the node lists itself and NumMembers() counts it. "
+          "non-trivial = effective accusation / a create under fire; distinct = (accusation, incarnation mode, carrier, meta/vsn variation, accuser, protocol version)"),
     tests=[
         dict(name="self", run="^TestSelfDefence$",
-             quick=dict(shards=16, checks=300, timeout=600),
-             thorough=dict(shards=16, checks=8000, timeout=3000)),
+             quick=dict(shards=14, checks=340, timeout=600),
+             thorough=dict(shards=14, checks=9000, timeout=3000)),
+        dict(name="fire", run="^TestStartupUnderFire$", quick=dict(shards=2, checks=30, timeout=600), thorough=dict(shards=2, checks=2500, timeout=3000)),
     ],
     assumptions=PUPPET_ASSUMPTIONS + [
         "alive claims about the node carry its own address (a different address is the conflict case of C08)",
